@@ -440,15 +440,15 @@ def drv_linearity(ctx: Ctx, sub: SubCheck):
 
     def hyp(it, t: Tally):
         code, i = it
-        ctx.hypothesis(sub.name, strat_for(code), oracle_linearity, ctx.pick(600, 8000), tally=t, shard=f"{code}/{i}", record=rec)
+        ctx.hypothesis(sub.name, strat_for(code), oracle_linearity, ctx.pick(300, 8000), tally=t, shard=f"{code}/{i}", record=rec)
 
     ctx.shards(hyp, shards)
 
 
 SUBCHECKS = [
     SubCheck("sb_32_11", oracle_code, drv_32, "single-burst (32,11): all 2^11 messages x both parities: reference codeword, rows/columns, round trip, re-encoding"),
-    SubCheck("cach_68_28", oracle_code, _drv_sampled("68_28", 1500, 13000), "CACH short LC (68,28): basis + random messages: reference codeword, CRC-8 read-back, rows/columns, round trip, three-way re-encoding"),
-    SubCheck("emb_128_72", oracle_code, _drv_sampled("128_72", 1500, 13000, _directed_128), "embedded LC (128,72): basis + checksum-directed + random messages: reference codeword, 5-bit checksum read-back, rows/columns, round trip, three-way re-encoding"),
+    SubCheck("cach_68_28", oracle_code, _drv_sampled("68_28", 750, 13000), "CACH short LC (68,28): basis + random messages: reference codeword, CRC-8 read-back, rows/columns, round trip, three-way re-encoding"),
+    SubCheck("emb_128_72", oracle_code, _drv_sampled("128_72", 750, 13000, _directed_128), "embedded LC (128,72): basis + checksum-directed + random messages: reference codeword, 5-bit checksum read-back, rows/columns, round trip, three-way re-encoding"),
     SubCheck("linearity", oracle_linearity, drv_linearity, "GF(2)-(affine) linearity of the encoders on random pairs; (128,72) residual confined to checksum-dependent positions"),
 ]
 PREDICATES = {}
